@@ -93,4 +93,111 @@ theorem domain_mismatch_rejected_vdot [Add K] [Mul K] [OfNat K 0] (conj : K → 
 example : binop (· + ·) max (⟨0, [], 2, fun _ => (1 : Rat)⟩ : Fld Rat) ⟨1, [], 2, fun _ => 1⟩ = .error "ValueError" := by
   simp [binop]
 
+/-- Field.mean(spaces) on BOTH code paths equals Field.integrate(spaces) divided by the total volume of the
+    contracted sub-domains: the uniform path (`np.mean`, i.e. sum / count) because `count · scalar_weight` is the
+    total volume of sub-domains whose `total_volume` follows StructuredDomain's formula (hypothesis `hstd`, used on
+    this path only), the non-uniform path (`weight(1).sum · (1/total_volume)`) by construction. -/
+theorem mean_eq_integrate_div_volume [Field K] [DecidableEq K] (f m h : Fld K) (sp : Spaces) (V : K)
+    (hm : mean f sp = .ok m) (hi : integrate f sp = .ok h) (hV : totalVolume f.subs sp = .ok V)
+    (hstd : ∀ i, (f.subs.getD i default).tv = none) (hV0 : V ≠ 0) :
+    ∀ o, m.val o = h.val o * V⁻¹ := by
+  unfold mean at hm
+  unfold integrate at hi
+  cases hsw : scalarWeight f.subs sp with
+  | error e => simp only [hsw] at hm; cases hm
+  | ok r =>
+    cases r with
+    | some swgt =>
+      simp only [hsw] at hm hi
+      unfold fsum at hi
+      cases hp : parseSpaces sp f.subs.length with
+      | error e => simp only [hp] at hm; cases hm
+      | ok l =>
+        simp only [hp, Except.ok.injEq] at hm hi
+        subst hm; subst hi
+        intro o
+        obtain ⟨hw, hs⟩ := (scalarWeight_spec f.subs sp l hp _ hsw o).1 swgt rfl
+        have hVe := totalVolume_scalar f.subs sp l V o hstd hp hs hV
+        rw [← hw] at hVe
+        simp only [contractFld, npMean, smulFloat, Fld.sizes]
+        have hne : ((countOf (f.subs.map SubDom.size) l : Nat) : K) * swgt ≠ 0 := by rw [← hVe]; exact hV0
+        have hc : ((countOf (f.subs.map SubDom.size) l : Nat) : K) ≠ 0 := left_ne_zero_of_mul hne
+        have hs0 : swgt ≠ 0 := right_ne_zero_of_mul hne
+        rw [hVe]
+        field_simp
+    | none =>
+      simp only [hsw] at hm hi
+      cases hw : weight f 1 sp with
+      | error e => simp only [hw] at hm; cases hm
+      | ok tmp =>
+        simp only [hw] at hm hi
+        obtain ⟨l, hp, hsubs, _, _⟩ := weight_val f tmp 1 sp hw
+        cases hs : fsum tmp sp with
+        | error e => simp only [hs] at hm; cases hm
+        | ok s =>
+          simp only [hs, hsubs, hV, Except.ok.injEq] at hm hi
+          subst hm; subst hi
+          intro o
+          simp [smulFloat]
+
+-- non-vacuity: both paths on a 2-point domain. scalar dvol 1/2: mean [3,5] = 4 = (3/2+5/2)/1;
+-- array dvol [1/2, 2]: mean = (3/2 + 10)/(5/2) = 23/5
+example :
+    let f : Fld Rat := ⟨0, [⟨[2], .scalar (1/2), none⟩], DT.float, fun i => if i.headD 0 = 0 then 3 else 5⟩
+    let g : Fld Rat := ⟨0, [⟨[2], .vector #[1/2, 2], none⟩], DT.float, fun i => if i.headD 0 = 0 then 3 else 5⟩
+    ((match mean f .none with | .ok m => m.val [] | .error _ => 0),
+     (match mean g (.scalar 0) with | .ok m => m.val [] | .error _ => 0)) = (4, 23/5) := by decide +kernel
+
+/-- Field.var(spaces) on BOTH code paths is the (volume-weighted) mean of the squared deviation from the
+    (volume-weighted) mean, broadcast back along the contracted sub-domains: population variance, with `|·|²`
+    (`nsq`) for complex data and the plain square for real data (`hreal`: on real dtypes `|z|² = z·z`). -/
+theorem var_eq_mean_sq_dev [Field K] [DecidableEq K] (nsq : K → K) (f g : Fld K) (sp : Spaces)
+    (hreal : f.dt ≠ DT.complex → ∀ z, nsq z = z * z)
+    (h : var nsq f sp = .ok g) :
+    ∃ m l d g', mean f sp = .ok m ∧ parseSpaces sp f.subs.length = .ok l ∧
+      mean { f with dt := d, val := fun i => nsq (f.val i - m.val (sel false (maskOf f.subs.length l) i)) } sp
+        = .ok g' ∧
+      ∀ o, g.val o = g'.val o := by
+  unfold var at h
+  cases hsw : scalarWeight f.subs sp with
+  | error e => simp only [hsw] at h; cases h
+  | ok r =>
+    cases r with
+    | some swgt =>
+      simp only [hsw] at h
+      cases hp : parseSpaces sp f.subs.length with
+      | error e => simp only [hp] at h; cases h
+      | ok l =>
+        simp only [hp, Except.ok.injEq] at h
+        subst h
+        let m := contractFld f l (max f.dt DT.float) (npMean l)
+        let sq : Fld K := { f with dt := f.dt, val := fun i => nsq (f.val i - m.val (sel false (maskOf f.subs.length l) i)) }
+        refine ⟨m, l, f.dt, contractFld sq l (max f.dt DT.float) (npMean l), ?_, rfl, ?_, ?_⟩
+        · simp only [mean, hsw, hp, m]
+        · simp only [mean, hsw, hp, sq]
+        · intro o
+          simp only [contractFld, npVar, npMean, Fld.sizes, sq, m]
+    | none =>
+      simp only [hsw] at h
+      cases hm : mean f sp with
+      | error e => simp only [hm] at h; cases h
+      | ok m1 =>
+        simp only [hm] at h
+        cases hp : parseSpaces sp f.subs.length with
+        | error e => simp only [hp] at h; cases h
+        | ok l =>
+          simp only [hp] at h
+          by_cases hc : f.dt = DT.complex
+          · simp only [hc, if_true, broadcastBack] at h
+            exact ⟨m1, l, DT.float, g, rfl, rfl, h, fun _ => rfl⟩
+          · simp only [hc, if_false, broadcastBack] at h
+            refine ⟨m1, l, max f.dt m1.dt, g, rfl, rfl, ?_, fun _ => rfl⟩
+            simp only [hreal hc]
+            exact h
+
+-- non-vacuity: array dvol [1/2, 2], data [3, 5]: mean 23/5, var = (1/2·(8/5)² + 2·(2/5)²)/(5/2) = 16/25
+example :
+    let g : Fld Rat := ⟨0, [⟨[2], .vector #[1/2, 2], none⟩], DT.float, fun i => if i.headD 0 = 0 then 3 else 5⟩
+    (match var (fun z => z * z) g .none with | .ok m => m.val [] | .error _ => 0) = 16/25 := by decide +kernel
+
 end NiftyVerif.C06
